@@ -687,7 +687,13 @@ func reencode(f *Func, r *Rng) (Func, bool) {
 	changed := false
 	// parameters
 	lp := f.LeafParams()
-	if len(lp) > 0 {
+	hasSoft := false
+	for _, p := range lp {
+		// what a soft group holds depends on which fields share its object
+		// (C11): regrouping the fields is not an equivalent encoding
+		hasSoft = hasSoft || p.Soft
+	}
+	if len(lp) > 0 && !hasSoft {
 		var leaves []Param
 		collectParams(f.Params, &leaves)
 		var out []Param
@@ -815,6 +821,13 @@ func evalC15(h *History) *Outcome {
 			continue
 		}
 		nf, ch := reencode(&hc.Funcs[i], r)
+		if hc.Funcs[i].Cat >= 0 {
+			// a declared function (possibly with ignored unexported fields in
+			// its parameter objects) against a reflect-made equivalent
+			nf.Cat = -1
+			ch = true
+			c.probe("declared_vs_dynamic")
+		}
 		if ch {
 			th.Funcs[i] = nf
 			nchanged++
@@ -889,6 +902,11 @@ func init() {
 			g.ft.Soft = false
 			g.ft.Objects = true
 			g.ft.PAvail = 0.9
+			if g.r.Intn(5) == 0 {
+				g.ft.Catalog = true
+				g.ft.NT = 6
+				g.ft.Names, g.ft.Groups = []string{"n1", "n2"}, []string{"g1", "g2"}
+			}
 		}, defaultMix),
 		Eval:       evalC15,
 		QuickRuns:  60_000,
